@@ -123,6 +123,9 @@ fn coq_step(t: &Tracked) -> Option<String> {
     let f = s.fields();
     let v = s.field_values();
     let (rb, ra) = (&s.regs_before, &s.regs_after);
+    // an operand that is a gas register is read by some handlers before and by others after the
+    // instruction's own gas charge: such steps are left to the oracle (region check) only
+    if s.reg_args.iter().any(|r| *r == 9 || *r == 10) && wclass(m) != WClass::Call { return Some("SKIP".into()); }
     Some(format!("OStep (mkr {} {} {} {} {} {} {} {} {} {} {} {} {} {} {} {} {} {} {} {} {} {})",
         s.opcode, f[0], f[1], f[2], f[3], s.imm, v[0], v[1], v[2], v[3],
         rb[R_SSP], rb[R_SP], rb[R_HP], rb[R_FP], ra[R_SSP], ra[R_SP], ra[R_HP],
@@ -143,6 +146,7 @@ fn run_scenario(out: &mut Out, st: &mut Stats, world: &World, tx: &TxSpec, repla
     let mut quiet_run: Vec<String> = vec![];
     let mut sig = String::new();
     let mut unprintable = false;
+    let mut skipped_gas_operand = 0u64;
     let (mut uw, mut memp) = (0u64, 0u64);
     let mut failures: Vec<(String, String)> = vec![];
     track(&tr, &init, |t, _sh| {
@@ -168,7 +172,8 @@ fn run_scenario(out: &mut Out, st: &mut Stats, world: &World, tx: &TxSpec, repla
         for f in oracle_step(&layout, t, perturb) { failures.push(f); }
         match coq_step(t) {
             Some(c) => {
-                if let Some(op) = c.strip_prefix('Q') { st.quiet += 1; quiet_run.push(op.to_string()); }
+                if c == "SKIP" { skipped_gas_operand += 1; }
+                else if let Some(op) = c.strip_prefix('Q') { st.quiet += 1; quiet_run.push(op.to_string()); }
                 else { if !quiet_run.is_empty() { coq_steps.push(format!("OQuiet {}", coq_list(&quiet_run))); quiet_run.clear(); } coq_steps.push(c); }
             }
             None => unprintable = true,
@@ -183,6 +188,7 @@ fn run_scenario(out: &mut Out, st: &mut Stats, world: &World, tx: &TxSpec, repla
         out.oracle_fail(&class, &what, replay.clone());
     }
     if !quiet_run.is_empty() { coq_steps.push(format!("OQuiet {}", coq_list(&quiet_run))); }
+    for _ in 0..skipped_gas_operand { out.count("step-with-gas-register-operand (oracle only, not replayed by the model)"); }
     if unprintable { out.count("scenario-with-non-panic-interpreter-error (not printed as a case)"); }
     if oracle_only || unprintable { return; }
     let coq = format!("{{| oc_env := {}; oc_steps := {} |}}", layout.to_coq_env(), coq_list(&coq_steps));
